@@ -749,7 +749,15 @@ ensures
     // base type <-> keyword, const flag = argument, bit[n] / qubit[n] -> one-dimensional registers of length n
     r == type_of(scalar_type.sp_kind(), written_width(r), isconst),                                                  //@C09:declared-type-as-written
 '''))
-    zov.setdefault('literal_to_asg_texpr', {}).update(dict(ret='res', spec='ensures res is Some,'))
+    zov.setdefault('literal_to_asg_texpr', {}).update(dict(ret='res', props=['C06', 'C08', 'C03'], spec='''ensures res is Some,
+    // every literal class maps to the graph literal of the same class, typed as that class (const)
+    match literal.sp_kind() {
+        synast::LiteralKind::Bool(_) => res->Some_0.expression is Literal && res->Some_0.expression->Literal_0 is Bool && res->Some_0.ty == Type::Bool(IsConst::True),
+        synast::LiteralKind::IntNumber(_) => res->Some_0.expression is Literal && res->Some_0.expression->Literal_0 is Int && res->Some_0.ty is Int,
+        synast::LiteralKind::FloatNumber(_) => res->Some_0.expression is Literal && res->Some_0.expression->Literal_0 is Float && res->Some_0.ty is Float,
+        synast::LiteralKind::BitString(_) => res->Some_0.expression is Literal && res->Some_0.expression->Literal_0 is BitString,
+        _ => true,
+    },                                                                                      //@C06,C08:literal-class'''))
     zov.setdefault('paren_expr_to_asg_texpr', {}).update(dict(ret='res', spec='ensures res is Some, grows(*old(context), *final(context)),'))
     zov.setdefault('io_declaration_statement_to_asg_stmt', {}).update(dict(ret='r', props=['C06', 'C09', 'C03'], spec='''ensures grows(*old(context), *final(context)),
     if type_decl.sp_input_token() is Some { r is InputDeclaration } else { r is OutputDeclaration },          //@C06:statement-kind
